@@ -42,3 +42,4 @@ def rules(ctx):
     S.after_bound_rules(ctx)
     S.relocation_content_rules(ctx)
     S.tree_root_update_rules(ctx)
+    S.survey2_rules(ctx)
